@@ -35,9 +35,102 @@ func (c *Ctx) Reach(fn *ssa.Function) *core.Reach {
 	if r, ok := c.reach[fn]; ok {
 		return r
 	}
-	r := core.NewReach(fn)
+	r := core.NewReachKeyed(fn, nil, c.atomKey(fn))
 	c.reach[fn] = r
 	return r
+}
+
+// ReachAvoid computes reaching conditions over paths that avoid the blocked blocks, with the same atoms as Reach.
+func (c *Ctx) ReachAvoid(fn *ssa.Function, blocked map[*ssa.BasicBlock]bool) *core.Reach {
+	return core.NewReachKeyed(fn, blocked, c.atomKey(fn))
+}
+
+// pureCallees may be evaluated twice with equal operands and give the same answer.
+var pureCallees = map[string]bool{
+	"go/types.AssignableTo": true, "go/types.ConvertibleTo": true, "go/types.Identical": true,
+	"builtin:len": true, "strings.HasPrefix": true, "strings.HasSuffix": true, "strings.EqualFold": true,
+	"(*go/types.Tuple).Len": true, "(*go/types.Signature).Params": true, "(*go/types.Signature).Results": true,
+	"(*go/types.Tuple).At": true, "(*go/types.object).Type": true, "(*go/types.object).Name": true, "(*go/types.object).Pkg": true,
+	"go/ast.IsExported": true,
+}
+
+// atomKey names propositional atoms: two condition values with the same *stable* origin term are the same
+// atom. A term is stable when it is built from constants, parameters, free variables, globals, pure calls
+// (go/types judgements, util predicates, Node accessors) and loads of struct fields that the function (and its
+// closures) never stores to. Anything else is one atom per SSA value.
+func (c *Ctx) atomKey(fn *ssa.Function) func(ssa.Value) string {
+	stored := map[string]bool{}
+	var collect func(f *ssa.Function)
+	collect = func(f *ssa.Function) {
+		for _, b := range f.Blocks {
+			for _, in := range b.Instrs {
+				if st, ok := in.(*ssa.Store); ok {
+					if fa, ok := st.Addr.(*ssa.FieldAddr); ok {
+						stored[core.FieldName(fa.X.Type(), fa.Field)] = true
+					}
+				}
+			}
+		}
+		for _, a := range f.AnonFuncs {
+			collect(a)
+		}
+	}
+	root := fn
+	for root.Parent() != nil {
+		root = root.Parent()
+	}
+	collect(root)
+	var stable func(t *core.Term, d int) bool
+	stable = func(t *core.Term, d int) bool {
+		if t == nil || d > 30 {
+			return false
+		}
+		switch t.Kind {
+		case "const", "param", "global":
+			return true
+		case "fv":
+			// a captured variable is stable only if it is a pointer to a struct used through field loads; plain loads of it are not
+			return false
+		case "local":
+			return !strings.Contains(t.Name, "@")
+		case "field":
+			if stored[t.Name] {
+				return false
+			}
+			if len(t.Args) == 1 && t.Args[0].Kind == "fv" {
+				return true
+			}
+		case "call":
+			if !(pureCallees[t.Name] || strings.HasPrefix(t.Name, pUtil+"Is") || strings.HasPrefix(t.Name, pUtil+"Complies") ||
+				t.Name == fnDerefPtr || t.Name == fnSliceElement || t.Name == fnStringType) {
+				return false
+			}
+		case "invoke":
+			switch t.Name {
+			case invExprType, invObjName, invMatcher, invAssignExpr, invRetErr, invNullable, invNullCheck:
+			default:
+				return false
+			}
+		case "binop", "unop", "convert", "index", "extract":
+		default:
+			return false
+		}
+		for _, a := range t.Args {
+			if !stable(a, d+1) {
+				return false
+			}
+		}
+		return true
+	}
+	return func(v ssa.Value) string {
+		t := c.O.Of(v)
+		if stable(t, 0) {
+			s := t.String()
+			// canonicalise != to == is done by matchers; here only identity matters
+			return "T:" + s
+		}
+		return ""
+	}
 }
 
 // ReachOf returns the reaching condition of the instruction's block.
